@@ -6,6 +6,7 @@ from front import AnalysisError
 from interp import Interp, Tup, Arr, SymArr, Unknown, Opaque, explore
 from report import Result, Ob, eq_ob, req_ob
 import config_model as CM
+from npsem import _last_of
 
 KNOWN = {"scatter", "cumsum", "gather", "permidx", "elem"}
 KNOWN_CONTOUR = {"cumsum", "gather", "permidx", "elem", "at", "abs", "searchsorted", "last", "pick", "min", "max", "idx", "sum", "countwhere"}
@@ -136,7 +137,7 @@ def contour_obligations(P):
         # cumulative sum searched: cumsum of the descending-sorted field times the cell area
         obs.append(eq_ob("R-SORTDIR", site, "the search runs on the cumulative sum of the field sorted descending (times the cell area) %s" % tag, carr, alg.fn("cumsum", srt) * cell,
                          "highest-valued cells first", key={"clause": "direction"}))
-        spec_target = pct * alg.fn("last", alg.fn("cumsum", srt) * cell)
+        spec_target = pct * _last_of(alg.fn("cumsum", srt) * cell)
         alt_target = pct * alg.fn("sum", flx.val) * cell
         if isinstance(target, Expr) and not target.eq(spec_target) and (target.eq(alt_target) or target.eq(pct * alg.fn("sum", srt) * cell)):
             # the total is summed separately from the searched partial sums: equal in exact arithmetic, but in floating point it can
@@ -154,7 +155,7 @@ def contour_obligations(P):
         obs.append(eq_ob("R-COUNT", site, "level is the smallest selected value: sorted[min(k, n-1)] %s" % tag, level, want_level, key={"clause": "level"}))
         # homogeneity in f: target and searched array are both degree one in the field (same cell-area factor)
         ok_h = isinstance(carr, Expr) and isinstance(target, Expr)
-        obs.append(req_ob("R-HOMOG", site, "searched sums and target carry the same power of the cell area and of the field (scaling f scales the level, not the area) %s" % tag, ok_h and (carr / alg.fn("cumsum", srt)).simp().eq((target / (pct * alg.fn("last", alg.fn("cumsum", srt) * cell)) * cell).simp())))
+        obs.append(req_ob("R-HOMOG", site, "searched sums and target carry the same power of the cell area and of the field (scaling f scales the level, not the area) %s" % tag, ok_h and (carr / alg.fn("cumsum", srt)).simp().eq((target / (pct * _last_of(alg.fn("cumsum", srt) * cell)) * cell).simp())))
         # cell area is |dx|*|dy| from the coordinate arrays
         xs = [a for a in cell.atoms() if a.kind == "fn" and a.name in ("at", "elem", "pick") and a.args and isinstance(a.args[0], Expr)]
         uses_x = any(X.sym in a.args[0].atoms() or a.args[0].eq(X.sym) for a in xs) or any(X.sym.top_atoms() <= set(a.args[0].atoms()) for a in xs)
